@@ -89,6 +89,7 @@ def run_tables(prog, rep):
 def run_scaling(prog, rep):
     rule = rep.rule('R-UNIT-SCALE', 'getSIScaling = (F[origin]/F[dest])^power under isScalable; isScalable compares base unit and power of both', floor=6)
     f = prog.fn('nix::util::getSIScaling')
+    f = _through_memo(prog, rep, rule, f)
     it = GenericInterp(prog)
     res = it.enumerate(f, this=None, args=[('origin',), ('dest',)])
     G = None
@@ -176,6 +177,91 @@ def run_scaling(prog, rep):
             rule.check(not (siA and siB and eqU and eqW), key, rep.where(g), g.q, 'false only when a condition fails',
                        'isScalable returns false although all conditions hold')
     return rule
+
+
+UNIT_ALPHABET = set('abcdefghijklmnopqrstuvwxyzABCDEFGHIJKLMNOPQRSTUVWXYZ0123456789^-+*/.\u00b5\u03a9\u00b0%')
+
+
+def _through_memo(prog, rep, rule, f):
+    """memoising wrapper idiom: a static-local table keyed by the arguments in front of the real computation.
+    Accepted when the key is injective in (origin, destination); the formula rule is then applied to the wrapped function."""
+    sem = Sem(prog)
+    statics = [v for v in f.walk() if v.k == 'var' and v.get('storage') == 'static' or (v.k == 'var' and (v.get('kind') == 'staticlocal' or v.get('static')))]
+    tables = [v for v in f.walk() if v.k == 'var' and re.search(r'\b(unordered_)?map<', v.get('ctype') or v.get('type') or '') and _is_static(f, v)]
+    if not tables:
+        return f
+    pn = [p['name'] for p in f.params]
+    inner = [c for c in f.calls() if (c.callee.get('q') or '').startswith('nix::') and len(real_args(c)) == len(pn) and [a.src(30) for a in real_args(c)] == pn
+             and prog.resolve_call(c) and prog.resolve_call(c)[0].body is not None]
+    if len(inner) != 1:
+        raise AnalysisBroken('getSIScaling keeps a static table but does not forward its arguments to one computation: memo idiom not recognised')
+    g = prog.resolve_call(inner[0])[0]
+    tname = tables[0].get('name')
+    lookups = [c for c in f.calls() if c.callee.get('name') in ('find', 'emplace', 'insert', 'count', 'at', 'operator[]', 'try_emplace') and c.c and unwrap(c.c[0]).src(30) == tname and real_args(c)]
+    if not lookups:
+        raise AnalysisBroken('getSIScaling: static table %s is never looked up' % tname)
+    lv = sem.local_vars(f)
+    verdicts = []
+    for c in lookups:
+        k = unwrap(real_args(c)[0])
+        t = term(k)
+        if t[0] == 'v' and lv.get(t[1]) is not None and lv[t[1]].c and lv[t[1]].c[0] is not None:
+            k = unwrap(lv[t[1]].c[0])
+        verdicts.append(_key_injective(k, pn))
+    bad = [v for v in verdicts if v[0] is False]
+    unk = [v for v in verdicts if v[0] is None]
+    if bad:
+        rule.bad('getSIScaling|memo-key', rep.where(lookups[0]), f.q, 'results are remembered in %s under a key that is not injective in (origin, destination): %s; the factor of one pair is returned for the other, so '
+                 'a->b and b->a are no longer reciprocal' % (tname, bad[0][1]))
+    elif unk:
+        raise AnalysisBroken('getSIScaling: memo key %s: %s' % (lookups[0].src(40), unk[0][1]))
+    else:
+        rule.ok('getSIScaling|memo-key', rep.where(lookups[0]), f.q, 'memo table %s is keyed injectively (%s); formula checked on %s' % (tname, verdicts[0][1], g.q))
+    return g
+
+
+def _is_static(f, v):
+    return bool(v.get('static') or v.get('storage') == 'static' or v.get('kind') == 'staticlocal' or any(
+        r.k == 'ref' and r.decl.get('kind') == 'staticlocal' and r.decl.get('name') == v.get('name') for r in f.walk()))
+
+
+def _key_injective(k, pn):
+    """(True|False|None, why)"""
+    src = k.src(80)
+    leaves = []
+
+    def flat(n):
+        n = unwrap(n)
+        if (n.k in ('binop', 'call') and n.get('op') == '+') and len([c for c in n.c if c is not None]) >= 2:
+            cs = [c for c in n.c if c is not None]
+            for c in cs[-2:]:
+                flat(c)
+        elif n.k in ('construct', 'cast', 'temp', 'bind') and len([c for c in n.c if c is not None]) == 1:
+            flat([c for c in n.c if c is not None][0])
+        else:
+            leaves.append(n)
+    if (k.k in ('call', 'construct') and re.search(r'(make_pair|make_tuple|pair<|tuple<|tie)', (k.callee or {}).get('name', '') + (k.t or ''))):
+        args = [a.src(30) for a in real_args(k)] if k.k == 'call' else [c.src(30) for c in k.c if c is not None]
+        if all(p in args for p in pn):
+            return True, 'pair/tuple of all arguments'
+        return False, 'key %s leaves out an argument' % src
+    flat(k)
+    names = [l.src(30) for l in leaves]
+    if not all(p in names for p in pn):
+        return False, 'key %s does not contain every argument' % src
+    if len(leaves) == len(pn):
+        return False, 'the key is the plain concatenation %s ("m" + "mm" equals "mm" + "m")' % src
+    # literal separators between the parameters
+    idx = [names.index(p) for p in pn]
+    for a, b in zip(idx, idx[1:]):
+        seps = leaves[min(a, b) + 1:max(a, b)]
+        lits = [x for x in seps if x.k in ('str', 'char')]
+        if not lits:
+            return None, 'cannot judge what separates the arguments in %s' % src
+        txt = ''.join(str(x.get('v')) for x in lits)
+        if not any(ch not in UNIT_ALPHABET for ch in txt):
+            return False, 'the separator "%s" can itself occur in a unit string' % txt
+    return True, 'arguments joined with a separator outside the unit alphabet'
 
 
 def _same(a, b):
